@@ -26,9 +26,15 @@ def setup(backend="stabilizer"):
 
     env = Env()
     env.V, env.Q, env.SS = V, Q, SS
-    env.clock = Clock()
-    V.reactor = env.clock
-    Q.reactor = env.clock
+
+    def new_clock():
+        """every network gets its own virtual clock: timers orphaned by a hung operation of an earlier network die with it"""
+        env.clock = Clock()
+        V.reactor = env.clock
+        Q.reactor = env.clock
+        return env.clock
+    env.new_clock = new_clock
+    new_clock()
     env.coins = []
 
     def scripted_randint(a, b):
@@ -64,6 +70,7 @@ def make_network(env, names, maxQ, maxR):
     all peers (as in production, where each process reads the config itself)."""
     nodes = []
     cfgs = []
+    env.new_clock()
     for i, n in enumerate(names):
         cfg = FakeConfig(names)
         node = env.V.virtualNode(cfg.hostDict[n], cfg, maxQubits=maxQ[i], maxRegisters=maxR[i])
@@ -123,7 +130,8 @@ def dump(net):
         virt = []
         for q in node.virtQubits:
             sq = resolve(net, q.simQubit)
-            virt.append((net.hid.get(id(q), -1), q.num, node_index(net, q.simNode), sq.simNum))
+            # a reference that no longer resolves to a live object (possible only when the implementation misbehaves) is dumped as 999
+            virt.append((net.hid.get(id(q), -1), q.num, node_index(net, q.simNode), sq.simNum if sq is not None else 999))
         sims = [(s.simNum, s.register.num, s.num) for s in node.simQubits]
         regs = []
         for rn in sorted(node.registers):
@@ -162,6 +170,9 @@ def object_graph_invariant(net):
             if q.active != 1:
                 bad.append("inactive qubit in list at node %d" % i)
             sn = net.nodes[node_index(net, q.simNode)]
+            if resolve(net, q.simQubit) is None:
+                bad.append("held qubit %d at node %d is backed by a dangling remote reference" % (q.num, i))
+                continue
             if not any(resolve(net, q.simQubit) is s for s in sn.simQubits):
                 bad.append("held qubit %d at node %d backed by a sim qubit that is not in its simulating node's list" % (q.num, i))
             if id(resolve(net, q.simQubit)) in backing:
